@@ -77,6 +77,32 @@ def xcopy (u : Univ) (src : St) : Nat → St → Nat → Nat → Option (St × N
         | none => none
         | some (d2, ch) => some (wr d2 o (xbytes src cl a o ch), o)
 
+/-- `type(h)(h, _buffer=other)` for whatever node the handle address `h` denotes in `src` -/
+def xcopyAt (u : Univ) (fuel : Nat) (src dst : St) (h : Nat) : Option (St × Nat) :=
+  match (findObj src h).bind (·.cls) with
+  | none => none
+  | some c => xcopy u src fuel dst h c
+
+/-! ### two buffers: histories that interleave operations inside each buffer with copies between them -/
+
+structure St2 where
+  a : St
+  b : St
+
+inductive Op2 where
+ | inA (op : Op)
+ | inB (op : Op)
+ | copyAB (h : Nat)      -- the node at `h` of buffer A is copy-constructed in buffer B
+ | copyBA (h : Nat)
+
+/-- a copy that does not end (cyclic source) or names no node leaves the destination as it was - in the model; the library dies
+with RecursionError after having allocated: the harness does not issue such copies -/
+def step2 (u : Univ) (fuel : Nat) (p : St2) : Op2 → St2
+ | .inA op => { p with a := step u p.a op }
+ | .inB op => { p with b := step u p.b op }
+ | .copyAB h => { p with b := ((xcopyAt u fuel p.a p.b h).map (·.1)).getD p.b }
+ | .copyBA h => { p with a := ((xcopyAt u fuel p.b p.a h).map (·.1)).getD p.a }
+
 /-- indistinguishable by reads along every path of at most `n` references: same scalars, null where the other is null, referents
 of the same class that are indistinguishable to depth `n - 1` -/
 def Sim (u : Univ) (s s' : St) : Nat → Nat → Nat → Nat → Prop
